@@ -963,9 +963,9 @@ package yqlib
 // if b >= 0 else n+b; the result is a new sequence holding elements from..to-1 in order (empty if from >= to).
 
 //@ func (*CandidateNode).CopyAsReplacement
-//@   props C16 C11
+//@   props C16 C07 C11
 //@   requires n != nil && replacement != nil
-//@   ensures result != nil && fresh(result) && sameScalarAttrs(result, replacement) && result.Parent == n.Parent && len(result.Content) == len(replacement.Content) && freshSlice(result.Content)
+//@   ensures @a-copy-never-the-node-it-was-given {C07,C16} result != nil && fresh(result) && sameScalarAttrs(result, replacement) && result.Parent == n.Parent && len(result.Content) == len(replacement.Content) && freshSlice(result.Content)
 //@   ensures @key {C16} result.Key == ite(n.IsMapKey, n, n.Key)
 
 //@ func (*CandidateNode).CreateReplacement
